@@ -8,6 +8,12 @@ NOT_APPLICABLE = {f"C{i:02d}": _PENDING for i in range(1, 21)}
 TRUST = "Trusted: rustc/std float semantics, the harness' own oracle code, the python driver. Held = held on the executions observed (exhaustive only for the sub-domains named in evidence)."
 
 CLAIMS = {
+    "C01": {
+        "text": "Relational monitor over real calls: (1) A -> B -> A on every listed ordered pair with B not luma (1500 pairs x f32/f64, 300 seeded in-gamut colours per pair quick, 30000 thorough), (2) direct A -> B against A -> M -> B for every listed pair and every listed intermediate M (about 24000 triples, which enumerates the TypeId shortcuts, shared-primaries paths, direct sRGB<->Oklab matrices and derive-chosen intermediates), (3) Alpha<A> -> Alpha<B>, A -> Alpha<B> and Alpha<A> -> B compared bit for bit with the bare conversion and the input alpha on every pair. (1) and (2) are judged in cartesian comparison space with a bound calibrated by the reference model's local sensitivity.",
+        "design_ref": "DESIGN.md section 3, C01",
+        "note": TRUST + " Pairs are the explicit list in harness/src/conv_table.rs (54 colour types in five white-point groups).",
+        "technique": "runtime monitoring: metamorphic relations between real conversion calls (inverse, path independence, alpha transparency) with model-calibrated tolerance",
+    },
     "C02": {
         "text": "Reference-model monitor: each of the 1608 listed conversion pairs (f32 and f64; D65 group with seven RGB standards, hexcone, CIE, Ok* and HSLuv spaces, plus D50/ProPhoto, DCI-P3 and sRGB-primaries-with-white-E/A groups, so non-D65 white points and dynamically derived matrices are exercised) is run on in-range inputs - the in-gamut part of the boundary lattice, +-k-ulp straddle points of every piecewise join of both spaces (Lab/Luv epsilon, transfer-curve knees, hexcone sector ties, HSL l = 1/2, greys) pulled back through the model, and seeded in-gamut fill (400 per pair quick, 40000 thorough) - and compared with an independent f64 model typed from the published definitions. Comparison is in cartesian form with a bound calibrated by the model's own local sensitivity (64 ulp on inputs and intermediate, 2e-6 where published 7-digit constants are crossed).",
         "design_ref": "DESIGN.md section 3, C02",
